@@ -18,6 +18,7 @@ import hashlib
 import inspect
 import math
 
+import equinox as eqx
 import jax
 import numpy as np
 from jax import numpy as jnp
@@ -554,6 +555,12 @@ def _physics(ctx, task, env, nkeys, nsteps):
 
     nroll = min(nkeys, ctx.budget(2, 4))
     s_roll = jax.tree.map(lambda x: x[:nroll], s)
+    if task == "locomotion":
+        # a zero-command episode (drawn with probability zero_command_probability) must be among
+        # the rolled ones: stand-still handling is where the gait clock is most easily broken
+        s_roll = eqx.tree_at(lambda t: t.command, s_roll, s_roll.command.at[0].set(0.0))
+        s = eqx.tree_at(lambda t: t.command, s, s.command.at[0].set(0.0))
+        ctx.count("transition:locomotion:zero-command-episode")
     (ph, fr, cm, sc), same = jax.jit(jax.vmap(roll))(s_roll, jr.split(jr.key(seed + 1), nroll))
     ph, fr, cm, sc = _f64(ph), _f64(fr), _f64(cm), _f64(sc)
     dt = float(env.dt)
@@ -613,9 +620,9 @@ def run(ctx):
                  "in the float32 mode only")
         return
     if ctx.quick:
-        chosen = [TASKS[ctx.seed % 3][0]]
-        ctx.note(f"quick tier: full initial()+transition() physics for task {chosen[0]} only "
-                 f"(seed mod 3); thorough runs all three")
+        chosen = ["locomotion"]
+        ctx.note("quick tier: full initial()+transition() physics for the locomotion task only; "
+                 "thorough runs all three")
     else:
         chosen = [t for t, _ in TASKS]
     for task in chosen:
